@@ -13,7 +13,7 @@ open GnoVerif.Gen.C52
 /-! ## closed form of goldmark's table -/
 
 set_option maxRecDepth 8192 in
-theorem htmlEscapeTable_length : htmlEscapeTable.length = 256 := by decide
+theorem htmlEscapeTable_length : htmlEscapeTable.length = 256 := by decide +kernel
 
 def gescByteSpec (c : Nat) : Bytes :=
   if c = 0 then [239, 191, 189]
@@ -24,7 +24,7 @@ def gescByteSpec (c : Nat) : Bytes :=
   else [c]
 
 set_option maxRecDepth 8192 in
-theorem gescByte_small : ∀ c, c < 256 → gescByte c = gescByteSpec c := by decide
+theorem gescByte_small : ∀ c, c < 256 → gescByte c = gescByteSpec c := by decide +kernel
 
 theorem gescByte_eq (c : Nat) : gescByte c = gescByteSpec c := by
   by_cases h : c < 256
